@@ -5,8 +5,8 @@ import TTV.Drv.C06
 /-! Driver glue for C07.  Inputs
   `(describe <m> <v> <annotated> <verbose>)`        matcher / value grammar of `TTV.Drv.C06`
   `(textrepr <isBytes> <ml> (np…) (c…))`             ml = `none` | `(some T|F)`
-  `(assert <api> ((base suffix)…) <mismatch> [<after> <tearDown> (<cleanup>…)])`   mismatch = `none` | `(some (d…))`,
-                                                     acts = ret|skip|xfail|uxsuccess|failure|error|interrupt
+  `(assert <api> ((base suffix)…) <mismatch> [<after> <tearDown> (<cleanup>…) [<place>]])`   mismatch = `none` | `(some (d…))`,
+                                                     acts = ret|skip|xfail|uxsuccess|failure|error|interrupt, place = body|setUp|setUpEarly (in setUp before the upcall)
   `(ctor <class> <row> <variant> <matchee> <annotated> <verbose>)`   a stock matcher built from the harness's table of constructor-argument shapes
 Traces
   `(ctor <str> <describe> <details> <errStr>)`
@@ -47,6 +47,10 @@ def act? : Sexp → Option Act
   | .atom "interrupt" => some .interrupt
   | _ => none
 
+def place? : Sexp → Option Place
+  | .atom "body" => some .body | .atom "setUp" => some .setUp | .atom "setUpEarly" => some .setUpEarly
+  | _ => none
+
 def input? : Sexp → Option Input
   | .list [.atom "describe", m, v, a, vb] => do
       some (.describe (← C06.m? m) (← C06.v? v) (← bool? a) (← bool? vb))
@@ -59,6 +63,9 @@ def input? : Sexp → Option Input
   | .list [.atom "assert", api, ex, mm, af, td, cs] => do
       some (.assert { api := ← api? api, existing := ← list? name? ex, mismatch := ← opt? (list? nat?) mm,
                       after := ← act? af, tearDown := ← act? td, cleanups := ← list? act? cs })
+  | .list [.atom "assert", api, ex, mm, af, td, cs, pl] => do
+      some (.assert { api := ← api? api, existing := ← list? name? ex, mismatch := ← opt? (list? nat?) mm,
+                      after := ← act? af, tearDown := ← act? td, cleanups := ← list? act? cs, place := ← place? pl })
   | _ => none
 
 def trace? : Sexp → Option Trace
